@@ -4,6 +4,20 @@ import (
 	"github.com/pkg/errors"
 )
 
+// blasOperand returns a tensor whose storage the BLAS routines can address through its
+// shape and a transposition flag alone. A non-contiguous view (a slice with gaps in its
+// storage window, with or without a pending transpose) is materialized; a tensor that
+// owns non-contiguous storage cannot be, and is refused.
+func blasOperand(t Tensor) (Tensor, error) {
+	if t.DataOrder().IsContiguous() {
+		return t, nil
+	}
+	if v, ok := t.(View); ok && v.IsMaterializable() {
+		return v.Materialize(), nil
+	}
+	return nil, errors.Errorf("linear algebra on a non-contiguous tensor that cannot be materialized is not supported")
+}
+
 // Trace returns the trace of the matrix (i.e. the sum of the diagonal elements). It only works for matrices
 func (t *Dense) Trace() (retVal interface{}, err error) {
 	e := t.e
@@ -26,20 +40,28 @@ func (t *Dense) Inner(other Tensor) (retVal interface{}, err error) {
 		return nil, errors.Errorf("Inner only works when there are two vectors. t's Shape: %v; other's Shape %v", t.Shape(), other.Shape())
 	}
 
+	var a Tensor
+	if a, err = blasOperand(t); err != nil {
+		return nil, errors.Wrapf(err, opFail, "Inner")
+	}
+	if other, err = blasOperand(other); err != nil {
+		return nil, errors.Wrapf(err, opFail, "Inner")
+	}
+
 	// we do this check instead of the more common t.Shape()[1] != other.Shape()[0],
 	// basically to ensure a similarity with numpy's dot and vectors.
-	if t.len() != other.DataSize() {
+	if a.DataSize() != other.DataSize() {
 		return nil, errors.Errorf(shapeMismatch, t.Shape(), other.Shape())
 	}
 
 	e := t.e
 	switch ip := e.(type) {
 	case InnerProderF32:
-		return ip.Inner(t, other)
+		return ip.Inner(a, other)
 	case InnerProderF64:
-		return ip.Inner(t, other)
+		return ip.Inner(a, other)
 	case InnerProder:
-		return ip.Inner(t, other)
+		return ip.Inner(a, other)
 	}
 
 	return nil, errors.Errorf("Engine does not support Inner()")
@@ -97,7 +119,14 @@ func (t *Dense) MatVecMul(other Tensor, opts ...FuncOpt) (retVal *Dense, err err
 	e := t.e
 
 	if mvm, ok := e.(MatVecMuler); ok {
-		if err = mvm.MatVecMul(t, other, retVal); err != nil {
+		var a Tensor
+		if a, err = blasOperand(t); err != nil {
+			return nil, errors.Wrapf(err, opFail, "MatVecMul")
+		}
+		if other, err = blasOperand(other); err != nil {
+			return nil, errors.Wrapf(err, opFail, "MatVecMul")
+		}
+		if err = mvm.MatVecMul(a, other, retVal); err != nil {
 			return nil, errors.Wrapf(err, opFail, "MatVecMul")
 		}
 		return handleIncr(retVal, fo.Reuse(), fo.Incr(), expectedShape)
@@ -145,7 +174,14 @@ func (t *Dense) MatMul(other Tensor, opts ...FuncOpt) (retVal *Dense, err error)
 
 	e := t.e
 	if mm, ok := e.(MatMuler); ok {
-		if err = mm.MatMul(t, other, retVal); err != nil {
+		var a Tensor
+		if a, err = blasOperand(t); err != nil {
+			return nil, errors.Wrapf(err, opFail, "MatMul")
+		}
+		if other, err = blasOperand(other); err != nil {
+			return nil, errors.Wrapf(err, opFail, "MatMul")
+		}
+		if err = mm.MatMul(a, other, retVal); err != nil {
 			return
 		}
 		return handleIncr(retVal, fo.Reuse(), fo.Incr(), expectedShape)
@@ -187,7 +223,14 @@ func (t *Dense) Outer(other Tensor, opts ...FuncOpt) (retVal *Dense, err error) 
 	// DGER does not have any beta. So the values have to be zeroed first if the tensor is to be reused
 	retVal.Zero()
 	if op, ok := e.(OuterProder); ok {
-		if err = op.Outer(t, other, retVal); err != nil {
+		var a Tensor
+		if a, err = blasOperand(t); err != nil {
+			return nil, errors.Wrapf(err, opFail, "Outer")
+		}
+		if other, err = blasOperand(other); err != nil {
+			return nil, errors.Wrapf(err, opFail, "Outer")
+		}
+		if err = op.Outer(a, other, retVal); err != nil {
 			return nil, errors.Wrapf(err, opFail, "engine.uter")
 		}
 		return handleIncr(retVal, fo.Reuse(), fo.Incr(), expectedShape)
